@@ -235,3 +235,107 @@ example :
     wf q = true ∧ resolve (yamlExists t) q = some ⟨['q', 'c'], 300, ['a', 'n', 'y'], ['e']⟩ ∧
     valuesEscapeFree t ⟨['q', 'c'], 300, ['a', 'n', 'y'], ['e']⟩ vars = true ∧
     processComponent t ⟨['q', 'c'], 300, ['a', 'n', 'y'], ['e']⟩ vars = .ok ['h', 'o', 's', 't', '=', 'f', 'l', 'p', '0', '0', '1'] := by decide
+
+/-! ## histories: many requests on one service (the per-base-path template cache)
+
+  `Svc` = backend + the service's only cross-request state, the map path ↦ compiled template; `step`/`run` answer a
+  history of GetAndProcess… (direct or after ResolveComponentQuery), GetComponentConfiguration,
+  InvalidateComponentTemplateCache and backend changes; templates may `include`/`extend` other entries. -/
+
+/-- What the request path does with the cached template set is what the model assumes: it only asks it for the
+    compiled template (`FromCache`) — nothing of a request is stored in it — and the map of sets is touched only by the
+    lookup-or-create and by the invalidation (go/ast over apricot/local, re-extracted on every run). -/
+theorem C20_template_set_use_is_code :
+    tplSetUses = Gen.C20.tplSetUses ∧ tplSetOtherRefs = Gen.C20.tplSetOtherRefs ∧
+    templateSetsUsers = Gen.C20.templateSetsUsers := by decide
+
+/-- The state a history leaves behind (backend and cache) does not depend on the variables its requests supplied. -/
+theorem C20_seq_state_ignores_vars (s : Svc) (pre pre' : List Op) (h : sameButVars pre pre' = true) :
+    after s pre = after s pre' :=
+  after_sameButVars s pre pre' h
+
+/-- EXACTLY THE VARIABLES SUPPLIED, over histories: the answer to a request is the same whatever variables the earlier
+    requests of the history supplied (any service state, any history, any mix of operations). -/
+theorem C20_seq_payload_own_vars (s : Svc) (pre pre' : List Op) (h : sameButVars pre pre' = true) (op : Op) :
+    (run s (pre ++ [op])).getLast? = (run s (pre' ++ [op])).getLast? := by
+  rw [run_append_singleton, run_append_singleton, after_sameButVars s pre pre' h]
+  simp
+
+/-- FULL-STRENGTH history clause (kept visible; FALSE of the code, see `C20_finding_stale_template_cache`): one service
+    answers every request of every history as a fresh service over the backend of that moment would. -/
+def C20_seq_fresh_full : Prop :=
+  ∀ (t : List Leaf) (ops : List Op), run (freshSvc t) ops = runFresh t ops
+
+/-- What IS proved: it does, for every history in which no request is processed between a backend change and the next
+    InvalidateComponentTemplateCache (changes before anything was compiled do not count). -/
+theorem C20_seq_fresh_partial (t : List Leaf) (ops : List Op) (h : noStale ops = true) :
+    run (freshSvc t) ops = runFresh t ops :=
+  run_eq_runFresh (freshSvc t) false false (fun _ => rfl) (fun _ e he => by simp [freshSvc] at he) ops h
+
+/-- The finding, machine-checked on the model: a compiled template outlives a change of its entry. Request, change the
+    entry, request again: the second answer is still rendered from the old content. -/
+theorem C20_finding_stale_template_cache : ¬ C20_seq_fresh_full := by
+  intro h
+  have := h [⟨[['o', '2'], ['c', 'o', 'm', 'p', 'o', 'n', 'e', 'n', 't', 's'], ['q', 'c'], ['A', 'N', 'Y'], ['a', 'n', 'y'], ['e']], some ['v', '1']⟩]
+    [.proc ⟨['q', 'c'], 300, ['a', 'n', 'y'], ['e']⟩ [],
+     .put ['o', '2', '/', 'c', 'o', 'm', 'p', 'o', 'n', 'e', 'n', 't', 's', '/', 'q', 'c', '/', 'A', 'N', 'Y', '/', 'a', 'n', 'y', '/', 'e'] ['v', '2'],
+     .proc ⟨['q', 'c'], 300, ['a', 'n', 'y'], ['e']⟩ []]
+  revert this; decide
+
+/-- An invalidation always restores exactness, whatever happened before: the request after it is answered as by a fresh
+    service over the backend of that moment. -/
+theorem C20_seq_inval_restores (s : Svc) (pre : List Op) (q : Query) (vars : List (Str × Str)) :
+    (step (after s (pre ++ [.inval])) (.proc q vars)).2 = .pay (processT (treeAfter s.tree pre) q vars) := by
+  rw [after_append]
+  simp only [after, step, processT, freshSvc, after_tree]
+
+/-- THE PAYLOAD OF REQUEST n: in a history without stale requests, the answer to a well-formed request is the entry it
+    names, linked (includes, extends) against the backend of that moment, executed with the variables of THIS request —
+    an expression in which neither the earlier requests nor their variables occur. -/
+theorem C20_seq_payload_exact (t : List Leaf) (pre : List Op) (q : Query) (vars : List (Str × Str))
+    (hq : wf q = true) (h : noStale (pre ++ [.proc q vars]) = true) :
+    (run (freshSvc t) (pre ++ [.proc q vars])).getLast? =
+      some (.pay (match linkedEntry (treeAfter t pre) q with
+                  | .ok segs => execT segs vars
+                  | .err c => .err c
+                  | .unmodelled => .unmodelled)) := by
+  rw [C20_seq_fresh_partial t _ h, runFresh_append_singleton]
+  simp only [List.getLast?_append, List.getLast?_singleton, Option.some_or, step]
+  have := processT_eq (treeAfter t pre) q vars
+  unfold processT at this
+  rw [← compileP_wf _ q hq, this]
+  rfl
+
+/-- The extended template fragment contains the plain one: an entry made of text and `{{ name }}` only is answered by a
+    fresh service exactly as the single-request model says, so `C20_render_exact`, `C20_substitution_partial` … apply. -/
+theorem C20_seq_fresh_plain (t : List Leaf) (q : Query) (vars : List (Str × Str)) (hq : wf q = true)
+    (content : Str) (segs : List Seg) (hg : yamlGet t (absRaw q) = some content)
+    (hl : lexTemplate content = some segs) (hb : blockKw ∉ varNames segs) :
+    processT t q vars = processComponent t q vars :=
+  processT_plain t q vars hq content segs hg hl hb
+
+/-- The model's answers to a whole history satisfy the Spec the harness evaluates on the implementation — every
+    request judged against the backend of its moment and its own variables — for all histories without stale requests,
+    with well-formed queries and values free of the autoescaped characters. -/
+theorem C20_seq_model_meets_spec_partial (t : List Leaf) (ops : List Op) (hs : noStale ops = true)
+    (hwf : opsWf ops = true) (hesc : seqEscapeFree t ops = true) :
+    seqOk t ops (modelSeqObs t ops) = true := by
+  unfold modelSeqObs
+  rw [C20_seq_fresh_partial t ops hs]
+  exact seqOk_runFresh t ops hwf hesc
+
+/-- Non-vacuity: an entry that includes a snippet and a child that extends a base, asked three times with shrinking
+    variable sets on one service; a variable that is no longer supplied renders empty. -/
+example :
+    let dir : List Str := [['o', '2'], ['c', 'o', 'm', 'p', 'o', 'n', 'e', 'n', 't', 's'], ['q', 'c'], ['A', 'N', 'Y'], ['a', 'n', 'y']]
+    let t : List Leaf := [
+      ⟨dir ++ [['g']], some ['[', '{', '{', ' ', 'w', ' ', '}', '}', ']', '{', '%', ' ', 'i', 'n', 'c', 'l', 'u', 'd', 'e', ' ', '"', 't', '"', ' ', '%', '}']⟩,
+      ⟨dir ++ [['t']], some ['t', '=', '{', '{', 'm', '}', '}']⟩,
+      ⟨dir ++ [['b']], some ['<', '{', '%', ' ', 'b', 'l', 'o', 'c', 'k', ' ', 'p', ' ', '%', '}', 'd', '{', '%', ' ', 'e', 'n', 'd', 'b', 'l', 'o', 'c', 'k', ' ', '%', '}', '>']⟩,
+      ⟨dir ++ [['c']], some ['x', '{', '%', ' ', 'e', 'x', 't', 'e', 'n', 'd', 's', ' ', '"', 'b', '"', ' ', '%', '}', '{', '%', 'b', 'l', 'o', 'c', 'k', ' ', 'p', '%', '}', '{', '{', 'w', '}', '}', '{', '%', 'e', 'n', 'd', 'b', 'l', 'o', 'c', 'k', ' ', 'p', '%', '}']⟩]
+    let g : Query := ⟨['q', 'c'], 300, ['a', 'n', 'y'], ['g']⟩
+    let c : Query := ⟨['q', 'c'], 300, ['a', 'n', 'y'], ['c']⟩
+    let ops : List Op := [.proc g [(['w'], ['A']), (['m'], ['f'])], .proc g [(['w'], ['B'])], .proc c [(['w'], ['C'])], .proc c []]
+    noStale ops = true ∧ opsWf ops = true ∧ seqEscapeFree t ops = true ∧
+    run (freshSvc t) ops = [.pay (.ok ['[', 'A', ']', 't', '=', 'f']), .pay (.ok ['[', 'B', ']', 't', '=']),
+                            .pay (.ok ['<', 'C', '>']), .pay (.ok ['<', '>'])] := by decide
